@@ -3,7 +3,7 @@
 # Applies /tmp/seedout/<ID-tag>/patch.diff to a scratch worktree, builds it, and runs the given checks against it.
 set -u
 seed=$1; shift
-src=/tmp/seedout/$seed
+src=/verif/seeded/$seed; [ -f $src/patch.diff ] || src=/tmp/seedout/$seed
 wt=/tmp/wt-evalseed-$seed
 git -C /repo worktree remove --force $wt >/dev/null 2>&1
 git -C /repo worktree add -q $wt HEAD || exit 2
